@@ -8,6 +8,7 @@ def table (group : String) : Option (List (String × OpFn)) :=
   match group with
   | "alg" => some opsAlg
   | "alias" => some opsAlias
+  | "lin" => some opsLin
   | _ => none
 
 def runLine (ops : Std.HashMap String OpFn) (line : String) : String :=
